@@ -6,6 +6,7 @@ import (
 	"fmt"
 	"log/slog"
 	"os"
+	"reflect"
 	"reservoir/utils/assertedpath"
 )
 
@@ -93,6 +94,37 @@ func (c *Config) verifySaved() error {
 		return err
 	}
 	return saved.verify()
+}
+
+// Returns a copy of the configuration, command-line overwrites included, that shares nothing with c.
+func (c *Config) clone() (*Config, error) {
+	encoded, err := json.Marshal(c)
+	if err != nil {
+		return nil, err
+	}
+	var copied Config
+	if err := json.Unmarshal(encoded, &copied); err != nil {
+		return nil, err
+	}
+	copyOverwritesRecursive(reflect.ValueOf(&copied), reflect.ValueOf(c))
+	return &copied, nil
+}
+
+func copyOverwritesRecursive(dst, src reflect.Value) {
+	if dst.Kind() == reflect.Pointer {
+		dst, src = dst.Elem(), src.Elem()
+	}
+	for i := 0; i < dst.NumField(); i++ {
+		dstField, srcField := dst.Field(i), src.Field(i)
+		if dstField.Kind() != reflect.Struct || !dstField.CanAddr() {
+			continue
+		}
+		if prop, ok := dstField.Addr().Interface().(interface{ copyOverwriteFrom(src any) }); ok {
+			prop.copyOverwriteFrom(srcField.Addr().Interface())
+			continue
+		}
+		copyOverwritesRecursive(dstField, srcField)
+	}
 }
 
 func load(path string) (*Config, error) {
